@@ -76,6 +76,21 @@ def run(c):
     c.guard("well_formed", cnt.get("well_formed", 0))
     for n in SINGLE:
         c.guard("only_" + n, cnt.get("only_" + n, 0))
+    # ---- one long-lived Checkers value while the epoch reader's answer changes (EventCheckSeq.tla)
+    sedges = c.path("checkseq_edges.ndjson")
+    sres = c.tlc_must_pass("fn", "MC_EventCheckSeq", cfg=c.pick("MC_EventCheckSeq_quick", "MC_EventCheckSeq_thorough"), edges_out=sedges, workers=4, timeout=1800)
+    srep = vlib.replay_edges(c, "eventcheck-seq", sedges, walks=0, wlen=1, clause="verdict-from-current-reader-answer")
+    late = 0      # validations of an event of an epoch the reader has LEFT after an earlier validation on the same checker
+    with open(sedges) as f:
+        for l in f:
+            e = json.loads(l)
+            if e["act"]["op"] == "validate" and not e["act"]["res"]:
+                hs = e["pre"]["h"]
+                if any(o["op"] == "validate" and o["e"]["epoch"] == e["act"]["e"]["epoch"] for o in hs) and any(o["op"] == "setreader" for o in hs):
+                    late += 1
+    c.log("EventCheckSeq: %d call sequences, %d transitions replayed on one Checkers value each (%d refusals after an earlier validation and a reader change)" % (
+        sres.distinct, srep["applied"], late))
+    c.guard("refusals_after_reader_change", late)
     # ---- Apalache verdict on the wide vectors
     wide_bad = []
     try:
@@ -96,7 +111,7 @@ def run(c):
     c.guard("wide_vectors_rejected", len([w for w in wide if not w["accepted"]]))
     nontrivial = cnt.get("well_formed", 0) + cnt.get("violating_1_clauses", 0)
     return c.finish("exploration", dict(
-        evaluations=rep["vectors"] + len(wide),
+        evaluations=rep["vectors"] + len(wide) + srep["applied"], call_sequences_on_one_checker=srep["applied"],
         wide_vectors_validated_by_apalache=len(wide), wide_vectors_disagreeing=len(wide_bad), apalache_runs=wide_obl.results,
         distinct_nontrivial=nontrivial if rep["distinct"] == rep["vectors"] else min(nontrivial, rep["distinct"]),
         rule="all states of EventCheckVec.tla for cfg %s: (fields) every combination of {0,1,2,2^31-3,2^31-2,2^31-1} for seq/epoch/lamport (frame: %s), "
@@ -104,11 +119,13 @@ def run(c):
              "parent list of length 0..%d over creator{self,other} x seq{-2,-1,0} x lamport{-2,-1,0} x {event, fork twin}, duplicates included. "
              "Plus %d vectors with values up to 2^32-1 validated by Apalache. Non-trivial = distinct TLC vectors that are well-formed or violate exactly one clause of the statement (the acceptance boundary)" % (
                  cfg, "4 values" if c.quick else "6 values", 3 if c.quick else 4, 2 if c.quick else 3, len(wide)),
-        vectors_by_class=cnt, states=res.distinct, transitions=res.generated, exhaustive=True,
+        vectors_by_class=cnt, states=c.tlc_states, transitions=c.tlc_transitions, exhaustive=True,
         samples=rep["samples"],
     ), assumptions=[
         "field values >= 2^31 are not enumerated by TLC (32-bit integers); they are covered by a smaller set of vectors (single-field changes, wrap-arounds, "
         "seeded random) whose real verdicts are validated by Apalache against the same WellFormed operator",
+        "histories: every sequence of up to %d calls (reader changes over 2 epochs x 2 validator sets, validations of 4 first events) runs on ONE Checkers value; "
+        "the verdict must follow the reader's answer at call time" % (3 if c.quick else 4),
         "parents are real tdag.TestEvent objects of the event's epoch; entries with the same identity k are the same event (same hash)",
         "the parents slice handed to Validate corresponds to e.Parents() (the API panics otherwise)",
         "TLC, SANY and the Json module are trusted"])
